@@ -242,9 +242,9 @@ func TestVerifC19HS(t *testing.T) {
 		t.Fatal(err)
 	}
 	h := &hx{t: t, w: w, out: out, rnd: rnd}
-	rounds := 3
+	rounds := 4
 	if verifh.Tier() == "thorough" {
-		rounds = 24
+		rounds = 72
 	}
 	rounds = envInt("VERIF_C19_ROUNDS", rounds)
 	h.bytesLevel(rounds)
